@@ -14,7 +14,8 @@ TECHNIQUE = ("Lean 4 theorems over an executable model of _convergence_hasher_ta
              "implementation-side monitor on an in-process grid (same data+secret+params -> same cap from every source; "
              "different secret/k/N/segment size -> different storage index; <= 55 bytes -> LIT cap, no server call; no "
              "convergence secret -> distinct random keys)")
-LEVEL_TEXT = ("chunking_irrelevant, cap_deterministic, params_separate (tag and hashed-input injectivity), lit_threshold, "
+LEVEL_TEXT = ("cap_source_independent / source_cap_is_uploadCap / literal_any_source proved for every uploadable keeping the "
+              "IUploadable contract (size, read in any piece sizes, keys), chunking_irrelevant, cap_deterministic, params_separate (tag and hashed-input injectivity), lit_threshold, "
               "random_key_is_input proved for all inputs over an abstract lawful hasher; constants (55, 16-byte keys, tag "
               "string, accepted k/n range) pinned to the live source; the model is tied to the code by comparing tag bytes, "
               "keys, storage indexes and caps for generated sources and parameter sets.")
@@ -556,11 +557,105 @@ def run_sources(ctx):
                 g.close()
 
 
+def split_by(d, sizes):
+    """the model's `splitBy`: pieces of the cycling sizes, the rest as one piece"""
+    out, sizes = [], list(sizes)
+    while sizes and sizes[0] != 0 and len(d) > sizes[0]:
+        out.append(d[:sizes[0]])
+        d = d[sizes[0]:]
+        sizes = sizes[1:] + sizes[:1]
+    out.append(d)
+    return out
+
+
+def run_via(ctx):
+    """Uploader.upload on an IUploadable whose read() returns piece lists, with varied EncryptAnUploadable.CHUNKSIZE:
+    the (position, length) of every read() call on the CHK path and the resulting cap vs the model's uploadCapVia"""
+    import grid
+    from twisted.internet import defer
+    from allmydata.immutable import upload
+    from allmydata import uri
+    rng = ctx.rng
+
+    class PieceSource(upload.FileHandle):
+        def __init__(self, fh, convergence, spec):
+            upload.FileHandle.__init__(self, fh, convergence)
+            self._spec = spec
+            self.calls = []
+
+        def read(self, length):
+            self.calls.append((self._filehandle.tell(), length))
+            return defer.succeed(split_by(self._filehandle.read(length), self._spec))
+
+    lines, impl, metas = [], [], []
+    saved = upload.EncryptAnUploadable.CHUNKSIZE
+    try:
+        for gi in range(ctx.budget(3, 20)):
+            k = rng.choice([1, 2, 3])
+            n = rng.randrange(k, k + 3)
+            max_seg = rng.choice([16, 100, 4096, 131072])
+            seed = rng.randrange(1 << 30)
+            with grid.Runtime(seed=seed, policy="random") as rt:
+                g = grid.Grid(grid.fresh_dir("c05v"), rt, num_servers=n, num_clients=1, k=k, happy=1, n=n, max_segment_size=max_seg)
+                try:
+                    c = g.clients[0]
+                    for _ in range(ctx.budget(12, 30)):
+                        size = rng.choice([0, 1, 55, 56, 57, max_seg, max_seg + 1, 2 * max_seg - 1, rng.randrange(0, 56),
+                                           rng.randrange(56, 3000), rng.randrange(56, 160000)])
+                        seg_eff = -(-min(max_seg, max(size, 1)) // k) * k
+                        while -(-size // seg_eff) > 200:
+                            size //= 2
+                        chunk = rng.choice([51200, 51200, 1, 7, 64, 1000, 4096, 65536])
+                        while size // chunk > 200:
+                            chunk *= 8
+                        spec = rng.choice([[], [1], [5, 3], [7, 1, 33], [16], [4096, 17], [51200, 1], [0, 5]])
+                        conv = rng.choice([None, b"", bytes(rng.randrange(256) for _ in range(16))])
+                        data = bytes(rng.randrange(256) for _ in range(min(size, 3001)))
+                        data = (data * (size // max(1, len(data)) + 1))[:size]
+                        case = {"kind": "via", "size": size, "k": k, "n": n, "maxSeg": max_seg, "chunk": chunk, "spec": spec,
+                                "conv": None if conv is None else conv.hex(), "seed": seed}
+                        upload.EncryptAnUploadable.CHUNKSIZE = chunk
+                        u = PieceSource(io.BytesIO(data), conv, spec)
+                        try:
+                            res = rt.wait(c.upload(u))
+                        except Exception as ex:
+                            ctx.violation("upload through a piece-list uploadable failed", case, "via-upload-failed-" + type(ex).__name__,
+                                          repr(ex)[:300])
+                            continue
+                        finally:
+                            upload.EncryptAnUploadable.CHUNKSIZE = saved
+                        cap = uri.from_string(res.get_uri())
+                        ref = rt.wait(c.upload(upload.Data(data, convergence=conv))).get_uri() if conv is not None else None
+                        if ref is not None and ref != res.get_uri():
+                            ctx.violation("a piece-list uploadable gives a different cap than upload.Data for the same bytes", case,
+                                          "source-dependent-cap:PieceSource")
+                        if isinstance(cap, uri.LiteralFileURI):
+                            out = "-;LIT;%s;0" % hx(cap.data)
+                            key = b""
+                        else:
+                            key = cap.key
+                            out = "%s;CHK;%s;%d;%d;%d;%d" % (",".join("%d+%d" % x for x in u.calls) or "-", hx(key), cap.needed_shares,
+                                                           cap.total_shares, cap.size, res.get_pushed_shares() + res.get_preexisting_shares())
+                        lines.append("via %s %d %d %d %d %s %s" % (hx(key), k, n, max_seg, chunk, hx(data), ",".join(map(str, spec)) or "-"))
+                        impl.append(out)
+                        metas.append(case)
+                        ctx.case(("via", size, k, n, max_seg, chunk, repr(spec), conv is None) if size else None)
+                        ctx.count("via:" + ("LIT" if size <= 55 else "CHK"))
+                finally:
+                    g.close()
+    finally:
+        upload.EncryptAnUploadable.CHUNKSIZE = saved
+    model = ctx.model(lines)
+    if model is not None:
+        ctx.compare("Uploader.upload through an IUploadable returning piece lists: read(pos,len) calls and result", metas, impl, model)
+
+
 def run(ctx):
     import common
     common.setup_impl_path()
     import grid  # noqa: F401
     run_hashutil(ctx)
+    run_via(ctx)
     run_sources(ctx)
     run_noservers(ctx)
     run_uploads(ctx)
